@@ -84,6 +84,18 @@ def run(spec, ctx):
                 text = "$[%s:%s%s]" % ("" if a is None else a, "" if b is None else b, "" if c is None else ":%d" % c)
                 check_case(ctx, ast, doc, text, "slices")
         ctx.count("slice_space_enumerated", len(spec["lens"]) * len(vals) ** 3)
+        # every index in -15..15 against every array length, alone, in lists, after a descendant segment
+        for n in spec["lens"]:
+            arr = [100 + i for i in range(n)]
+            for i in range(-15, 16):
+                for doc, ast, text in (
+                    (arr, ["q", "$", [["child", [["index", i]]]]], "$[%d]" % i),
+                    ({"a": arr}, ["q", "$", [["child", [["name", "a"]]], ["child", [["index", i], ["index", 0]]]]], "$.a[%d, 0]" % i),
+                    ([arr, [arr]], ["q", "$", [["desc", [["index", i]]]]], "$..[%d]" % i),
+                    ({str(i): "member", "k": arr}, ["q", "$", [["child", [["index", i]]]]], "$[ %d ]" % i),
+                ):
+                    check_case(ctx, ast, doc, text, "indices")
+        ctx.count("index_space_enumerated", len(spec["lens"]) * 31 * 4)
     elif kind == "matrix":
         rr = Renderer(r)
         for (vk, v), (sk, sel) in itertools.product(VALUE_KINDS.items(), SEL_KINDS.items()):
